@@ -29,6 +29,7 @@ def run_compiled(ctx, compiled, max_steps=20000):
     vm = VM(memory_limit=ctx.memory_limit, time_limit=ctx.time_limit)
     vm.globals = ctx._globals
     ctx._current_vm = vm
+    ctx._last_vm = vm            # harness-side handle (monitors read the final stack depths)
     steps = [0]
     orig = vm._check_limits
 
